@@ -185,7 +185,7 @@ pub fn parse_docs(attrs: &[Attribute]) -> Result<String> {
         })
         .collect::<Result<Vec<_>>>()?;
 
-    Ok(match doc_attrs.len() {
+    let mut docs = match doc_attrs.len() {
         // No docs
         0 => String::new(),
 
@@ -208,7 +208,15 @@ pub fn parse_docs(attrs: &[Attribute]) -> Result<String> {
             buffer.push_str("\n */\n");
             buffer
         }
-    })
+    };
+
+    // exported files hold one declaration per block of lines, blocks are separated by an empty line: the
+    // documentation must not contain one
+    while docs.contains("\n\n") {
+        docs = docs.replace("\n\n", "\n *\n");
+    }
+
+    Ok(docs)
 }
 
 /// Doc text is emitted inside a `/** .. */` block, directly after a `*`: it must neither contain
